@@ -1,0 +1,2 @@
+//! verif::tag — guarded hooks (cfg rustybuzz_verif).
+#![allow(unused_imports)]
